@@ -53,12 +53,13 @@ REQUEST_VALUES = (12000.0, 350.0, 47000.0, 5.0, 900.0)
 
 
 class Ctx:
-    def __init__(self, fleets: Tuple[str, ...], valid_states: Tuple[str, ...] = ("idle", "repositioning"), base_threshold_km: Optional[float] = None):
+    def __init__(self, fleets: Tuple[str, ...], valid_states: Tuple[str, ...] = ("idle", "repositioning"), base_threshold_km: Optional[float] = None, extra: Optional[dict] = None):
         self.valid_states = tuple(valid_states)
         self.base_threshold_km = base_threshold_km
         dconf = {"matching_range_km_threshold": RANGE_THRESHOLD_KM, "valid_dispatch_states": list(valid_states)}
         if base_threshold_km is not None:
             dconf["base_charging_range_km_threshold"] = base_threshold_km
+        dconf.update(extra or {})
         self.cfg = make_config(dispatcher=dconf)
         self.env = make_env(self.cfg, fleets=fleets)
         self.rn = HaversineRoadNetwork(sim_h3_resolution=15)
@@ -242,8 +243,10 @@ def judge(ctx: Ctx, sim) -> List[Tuple[tuple, str]]:
 
 
 def _geom_shard(shard) -> Dict[str, Any]:
-    nv, nr, part, nparts, multiset = shard
-    ctx = Ctx(())
+    nv, nr, part, nparts, multiset = shard[:5]
+    # a second pass under a configuration whose station-search radius is smaller than one cell: the trip matching knows no radius
+    tiny = len(shard) > 5 and shard[5] == "tiny_search_radius"
+    ctx = Ctx((), extra={"max_search_radius_km": 0.0004} if tiny else None)
     cells = cells7()
     out = {"cases": 0, "nontrivial": 0, "findings": {}, "samples": []}
     vgen = itertools.combinations_with_replacement(range(7), nv) if multiset else itertools.product(range(7), repeat=nv)
@@ -263,7 +266,7 @@ def _geom_shard(shard) -> Dict[str, Any]:
             if nv and nr:
                 out["nontrivial"] += 1
             for sig, msg in judge(ctx, sim):
-                out["findings"].setdefault(sig, (msg, {"kind": "geometry", "vehicles": list(vp), "requests": list(rp)}))
+                out["findings"].setdefault(sig + (("tiny_search_radius",) if tiny else ()), (msg, {"kind": "geometry", "vehicles": list(vp), "requests": list(rp), "tiny_search_radius": tiny}))
             if len(out["samples"]) < 1 and nv >= 2 and nr >= 2:
                 out["samples"].append({"vehicle_cells": list(vp), "request_cells": list(rp)})
     out["findings"] = [(list(k), m, rp) for k, (m, rp) in out["findings"].items()]
@@ -451,6 +454,7 @@ def c12() -> int:
             shards += [(nv, nr, p, 16, True) for p in range(16)]
         for nv, nr in ((5, 1), (1, 5), (5, 2), (2, 5), (5, 3), (3, 5)):
             shards += [(nv, nr, p, 32, True) for p in range(32)]
+    shards += [(nv, nr, 0, 1, False, "tiny_search_radius") for nv in (1, 2) for nr in (1, 2)] + [(3, 2, p, 4, True, "tiny_search_radius") for p in range(4)]
     gres = pmap(_geom_shard, rotate(shards, seed()))
     eshards = [(gi, fl, va0) for gi in range(len(GEOMS)) for fl in ((), ("f1", "f2"), ("f1",)) for va0 in VEH_ATTRS]
     eres = pmap(_elig_shard, rotate(eshards, seed()))
@@ -474,7 +478,7 @@ def c12() -> int:
             "distinct_nontrivial": nontrivial,
             "rule": "(i) every placement of nv vehicles and nr requests on 7 cells for all (nv, nr) in {0..3}^2"
             + ("" if quick else " plus every multiset placement for (4,1..4),(1..3,4),(5,1..3),(1..3,5)")
-            + ", all eligible, no fleets; (iii) on the same geometries, under a configuration whose valid_dispatch_states include DispatchTrip, every combination of (eligible, en route to its own request, out of service) x (waiting, has a vehicle); (ii) on 6 fixed 3x3 geometries every combination of 7 vehicle attributes (eligible, out of service, off shift, low range, other fleet, no fleet, both fleets) and 3 request attributes (waiting, has a vehicle, other fleet), without fleets, with fleets {f1,f2} and with the single declared fleet {f1}; (iv) a crowd of N eligible vehicles on one cell (N = " + "/".join(map(str, crowds)) + ") plus two foreground vehicles on every pair of the 7 cells x every placement of 1-2 requests and every multiset placement of 3; non-trivial = both sides non-empty / some attribute not the default",
+            + ", all eligible, no fleets; (iii) on the same geometries, under a configuration whose valid_dispatch_states include DispatchTrip, every combination of (eligible, en route to its own request, out of service) x (waiting, has a vehicle); (ii) on 6 fixed 3x3 geometries every combination of 7 vehicle attributes (eligible, out of service, off shift, low range, other fleet, no fleet, both fleets) and 3 request attributes (waiting, has a vehicle, other fleet), without fleets, with fleets {f1,f2} and with the single declared fleet {f1}; the placements of <= 2 x <= 2 and the multiset placements of 3 x 2 once more under a station-search radius smaller than a cell (max_search_radius_km 0.4 m); (iv) a crowd of N eligible vehicles on one cell (N = " + "/".join(map(str, crowds)) + ") plus two foreground vehicles on every pair of the 7 cells x every placement of 1-2 requests and every multiset placement of 3; non-trivial = both sides non-empty / some attribute not the default",
             "geometry_cases": sum(r["cases"] for r in gres),
             "eligibility_cases": sum(r["cases"] for r in eres) - sum(r["cases"] for r in cres),
             "crowd_cases": sum(r["cases"] for r in cres),
@@ -525,7 +529,7 @@ def replay(body) -> int:
         print("not reproduced on this tree")
         return 0
     elif rp["kind"] == "geometry":
-        ctx = Ctx(())
+        ctx = Ctx((), extra={"max_search_radius_km": 0.0004} if rp.get("tiny_search_radius") else None)
         vs = [ctx.vehicle(k, cells[c], "eligible") for k, c in enumerate(rp["vehicles"])]
         rs = [ctx.request(k, cells[c], "waiting") for k, c in enumerate(rp["requests"])]
     else:
